@@ -19,6 +19,9 @@ package main
 // hq:r:s (Taxonomy.HasRequiredRank(r) closure), sw:k:s (k = sp|ge|fa: MakeSetSpecies/Genus/FamilyWorker + SetSpecies/…, r<hex>:
 // MakeSetTaxonAtRankWorker), sn:s (SetScientificName, AddScientificNameWorker), tr:s (SetTaxonomicRank, AddTaxonRankWorker);
 // wlo:k=w,… (Taxonomy.LCA(…, 1.0) run 300 times: the sorted set of its answers over Go's map iteration orders).
+// third pass: itx (Taxonomy.Iterator() drained: count/sum of the taxids mod 1000003), isl:<ids>:<f> (TaxonSlice source through f = all | sub:c | rank:r |
+// bel:c,c | find:r:c,c, TaxonSlice() in order / TaxonSet() keys), isp:<ids>:<sched> (an iterator and its Split(), who calls
+// Next), ispp:<ids> (the two handles drained by two goroutines: the sorted union), ifind:r:c,c (obifind ITaxonRestrictions on Taxonomy.Iterator()).
 // Alias oracle: every query on a sequence whose taxid is a merged id is run again with the taxid it resolves to; the two
 // answers must be the same (<op>.alias).
 //
@@ -39,6 +42,7 @@ import (
 	"git.metabarcoding.org/obitools/obitools4/obitools4/pkg/obiseq"
 	"git.metabarcoding.org/obitools/obitools4/obitools4/pkg/obitax"
 	"git.metabarcoding.org/obitools/obitools4/obitools4/pkg/obitools/obiannotate"
+	"git.metabarcoding.org/obitools/obitools4/obitools4/pkg/obitools/obifind"
 	"git.metabarcoding.org/obitools/obitools4/obitools4/pkg/obitools/obigrep"
 )
 
@@ -369,8 +373,9 @@ func c14RankList(rng *rand.Rand, t *c14Tree, ranks []string, k int) string {
 	return strings.Join(l, ",")
 }
 
-// c14Weights makes the k=w list of a merged_taxid map: distinct keys; keys resolving to the same node get
-// the same weight (TaxonomicDistribution overwrites in map order).
+// c14Weights makes the k=w list of a merged_taxid map: distinct keys, free counts (one in twelve is zero); several
+// keys may resolve to the same node (a merged id next to the current taxid, two merged ids) with unrelated counts,
+// zero or not: TaxonomicDistribution adds them (5d9c1cf), the answer must be that of the summed counts.
 func c14Weights(rng *rand.Rand, t *c14Tree, k int, clade bool) string {
 	ref := t.getRef()
 	keys := map[int]bool{}
@@ -385,40 +390,74 @@ func c14Weights(rng *rand.Rand, t *c14Tree, k int, clade bool) string {
 			}
 		}
 	}
-	for i := 0; i < k; i++ {
-		x := c14AnyID(rng, t)
-		if len(pool) > 0 && rng.Intn(10) > 0 {
-			x = pool[rng.Intn(len(pool))]
-		}
+	var mergedOf map[int][]int // node -> the merged ids that resolve to it
+	add := func(x int) {
 		if keys[x] {
-			continue
+			return
 		}
 		keys[x] = true
 		w := 1 + rng.Intn(5)
-		if rng.Intn(12) == 0 {
+		if rng.Intn(12) == 0 || (len(wOf) > 0 && rng.Intn(40) == 0) {
 			w = 0
 		}
 		if r, ok := ref.resolve(x); ok {
-			if w0, seen := wOf[r]; seen { // same "count > 0", any value
-				if w0 == 0 {
-					w = 0
-				} else if w == 0 {
-					w = 1 + rng.Intn(5)
+			if w0, seen := wOf[r]; seen {
+				if rng.Intn(3) == 0 { // a zero count next to a positive one, either way round
+					if w0 > 0 {
+						w = 0
+					} else {
+						w = 1 + rng.Intn(5)
+					}
 				}
 				stat("gen:wl-dup-node")
+				if (w0 == 0) != (w == 0) {
+					stat("gen:wl-dup-mixed")
+				}
+				wOf[r] = w0 + w
 			} else {
 				wOf[r] = w
 			}
 		}
 		parts = append(parts, fmt.Sprintf("%d=%d", x, w))
 	}
+	for i := 0; i < k; i++ {
+		x := c14AnyID(rng, t)
+		if len(pool) > 0 && rng.Intn(10) > 0 {
+			x = pool[rng.Intn(len(pool))]
+		}
+		add(x)
+		if len(t.aliases) > 0 && len(t.aliases) <= 400 && rng.Intn(4) == 0 { // a second key for the same taxon
+			if mergedOf == nil {
+				mergedOf = map[int][]int{}
+				for _, a := range t.aliases {
+					if _, live := t.parent[a[0]]; live {
+						continue
+					}
+					if y, ok := ref.resolve(a[0]); ok {
+						mergedOf[y] = append(mergedOf[y], a[0])
+					}
+				}
+			}
+			if r, ok := ref.resolve(x); ok {
+				if l := mergedOf[r]; len(l) > 0 {
+					add(l[rng.Intn(len(l))])
+					if x != r && rng.Intn(2) == 0 {
+						add(r)
+					}
+				}
+			}
+		}
+	}
+	if len(parts) > 1 && rng.Intn(2) == 0 {
+		rng.Shuffle(len(parts), func(i, j int) { parts[i], parts[j] = parts[j], parts[i] })
+	}
 	return strings.Join(parts, ",")
 }
 
 // c14WeightsDup: a merged_taxid map in which exactly one taxon is present under two keys (a merged id and the
 // taxid it resolves to, or two merged ids), once with a zero count and once with a positive one, next to at most
-// two other taxa of positive count: TaxonomicDistribution keeps whichever of the two keys Go's map iteration
-// yields last (known order dependence, see lib/cfg/C14.py); "" when the tree has no resolvable merged id
+// two other taxa of positive count: before 5d9c1cf TaxonomicDistribution kept whichever of the two keys Go's map
+// iteration yielded last (order dependence, now repaired: the wlo query demands one answer, the tree-implied one)
 func c14WeightsDup(rng *rand.Rand, t *c14Tree) string {
 	ref := t.getRef()
 	for try := 0; try < 20; try++ {
@@ -455,6 +494,25 @@ func c14WeightsDup(rng *rand.Rand, t *c14Tree) string {
 	return fmt.Sprintf("%d=1", t.ids[0])
 }
 
+// c14SrcList: the taxa of a TaxonSlice handed to an iterator: nodes in any order, with repetitions, now and then
+// a merged id (Taxon resolves it), rarely an unknown taxid (the whole query is then unk)
+func c14SrcList(rng *rand.Rand, t *c14Tree, k int) string {
+	l := make([]int, 0, k)
+	for i := 0; i < k; i++ {
+		switch r := rng.Intn(40); {
+		case r == 0 && k > 0 && rng.Intn(3) == 0:
+			l = append(l, t.freshID(rng))
+		case r < 6 && len(t.aliases) > 0:
+			l = append(l, t.aliases[rng.Intn(len(t.aliases))][0])
+		case r < 12 && len(l) > 0:
+			l = append(l, l[rng.Intn(len(l))])
+		default:
+			l = append(l, t.ids[rng.Intn(len(t.ids))])
+		}
+	}
+	return c14Join(l)
+}
+
 func c14RandQueries(rng *rand.Rand, t *c14Tree, ranks []string, k int) []string {
 	qs := make([]string, 0, k)
 	rk := func() string {
@@ -464,7 +522,57 @@ func c14RandQueries(rng *rand.Rand, t *c14Tree, ranks []string, k int) []string 
 		return c14Hex(t.rank[t.ids[rng.Intn(len(t.ids))]])
 	}
 	for i := 0; i < k; i++ {
-		switch rng.Intn(36) {
+		switch rng.Intn(39) {
+		case 36: // a TaxonSlice source (order, duplicates, merged ids) through one filter or the obifind pipeline
+			var spec string
+			switch rng.Intn(6) {
+			case 0:
+				spec = "all"
+			case 1:
+				spec = "rank:" + rk()
+			case 2:
+				spec = "bel:" + c14IDList(rng, t, rng.Intn(4))
+			case 3:
+				r := "-"
+				if rng.Intn(3) > 0 {
+					r = rk()
+				}
+				spec = "find:" + r + ":" + c14IDList(rng, t, rng.Intn(3))
+			default:
+				spec = fmt.Sprintf("sub:%d", c14AnyID(rng, t))
+			}
+			qs = append(qs, "isl:"+c14SrcList(rng, t, rng.Intn(11))+":"+spec)
+		case 37: // an iterator and its Split, any order of the Next calls
+			src := c14SrcList(rng, t, rng.Intn(9))
+			n := 0
+			if src != "" {
+				n = strings.Count(src, ",") + 1
+			}
+			var sched []byte
+			for j := rng.Intn(n + 4); j > 0; j-- {
+				sched = append(sched, "ab"[rng.Intn(2)])
+			}
+			if rng.Intn(8) == 0 { // one consumer only
+				sched = []byte(strings.Repeat([]string{"a", "b"}[rng.Intn(2)], n+1+rng.Intn(2)))
+			}
+			if rng.Intn(4) == 0 {
+				qs = append(qs, "ispp:"+c14SrcList(rng, t, rng.Intn(40)))
+			} else {
+				qs = append(qs, "isp:"+src+":"+string(sched))
+			}
+		case 38:
+			switch {
+			case len(t.ids) > 400 && rng.Intn(4) > 0:
+				qs = append(qs, fmt.Sprintf("sub:%d:%d", c14AnyID(rng, t), c14AnyID(rng, t)))
+			case rng.Intn(4) == 0:
+				qs = append(qs, "itx")
+			default:
+				r := "-"
+				if rng.Intn(2) == 0 {
+					r = rk()
+				}
+				qs = append(qs, "ifind:"+r+":"+c14IDList(rng, t, rng.Intn(3)))
+			}
 		case 28:
 			qs = append(qs, "vf:"+c14SeqAttrA(rng, t))
 		case 29:
@@ -854,6 +962,40 @@ func c14AllQueries(rng *rand.Rand, t *c14Tree, ranks []string) []string {
 			qs = append(qs, fmt.Sprintf("sr:%s:%s", c14Hex(r), s))
 		}
 	}
+	// third pass: the iterator protocol. Every node as a clade of the subtree enumeration, from a source listing
+	// the nodes in descending order with the first one repeated; every (rank, clade) pair through obifind;
+	// every schedule of two consumers over the nodes (n <= 3: up to n+2 calls), a sample otherwise
+	qs = append(qs, "itx")
+	desc := make([]int, 0, n+1)
+	for i := n - 1; i >= 0; i-- {
+		desc = append(desc, ids[i])
+	}
+	desc = append(desc, ids[n-1])
+	for _, c := range ids {
+		qs = append(qs, fmt.Sprintf("isl:%s:sub:%d", c14Join(desc), c), fmt.Sprintf("ifind:-:%d", c))
+		for _, r := range ranks {
+			qs = append(qs, fmt.Sprintf("ifind:%s:%d", c14Hex(r), c))
+		}
+	}
+	if n <= 3 {
+		for l := 0; l <= n+2; l++ {
+			for m := 0; m < 1<<l; m++ {
+				sched := make([]byte, l)
+				for i := range sched {
+					sched[i] = "ab"[m>>i&1]
+				}
+				qs = append(qs, "isp:"+c14Join(ids)+":"+string(sched))
+			}
+		}
+	} else {
+		for k := 0; k < 6; k++ {
+			sched := make([]byte, rng.Intn(n+3))
+			for i := range sched {
+				sched[i] = "ab"[rng.Intn(2)]
+			}
+			qs = append(qs, "isp:"+c14Join(desc)+":"+string(sched))
+		}
+	}
 	qs = append(qs, c14RandQueries(rng, t, ranks, 10)...)
 	return qs
 }
@@ -1042,6 +1184,17 @@ func (c14) Gen(rng *rand.Rand, tier string, emit func(string)) {
 			" qwlo:40=0,4=2,5=1 qwlo:40=2,4=0,5=1 qwlo:41=0,40=3,6=1 qwlo:40=0,4=2 qwlo:4=1,5=2 qwlo:40=1,4=2,6=1",
 		// a taxonomy rooted at taxid 0: auto-correction to the root goes through SetTaxid (0 is stored as 1)
 		"tax n0:0:"+nr+" n1:0:"+sp+" n2:0:"+sp+" a7:0 a8:2 a9:8 qvf:7 qvf:8 qvf:9 qvf:0 qvf:- qvf:5 qsp:0:7 qsp:7:9 qsn:7 qtr:9",
+	)
+	corpus = append(corpus,
+		// third pass: iterator protocol. Slice sources with repetitions and merged ids, every filter, the obifind pipeline,
+		// an unknown taxon in the source / as a clade, the empty source; Split under several schedules (one consumer
+		// only, strict alternation, more calls than taxa, no call at all)
+		"tax "+demo+" qitx qisl:6,5,4,3,2,1:all qisl:4,40,41,4,6:all qisl:6,5,4,3,2,1,4:sub:2 qisl:6,5,4,3,2,1:sub:40 qisl:4,5:sub:99 qisl:4,99:sub:2 qisl::sub:2"+
+			" qisl:6,5,4,3,2,1:rank:"+sp+" qisl:6,60,4:rank:"+sp+" qisl:1,2,3:rank:"+h("order")+" qisl:6,5,4,3,2,1:bel: qisl:6,5,4,3,2,1:bel:3 qisl:6,5,4,3,2,1:bel:3,5 qisl:6,5,4,3,2,1:bel:5,40,60 qisl:6,5,4:bel:2,99"+
+			" qisl:6,5,4,3,2,1:find:-: qisl:6,5,4,3,2,1:find:"+sp+": qisl:6,5,4,3,2,1:find:"+sp+":2 qisl:6,5,4,3,2,1:find:-:2,3 qisl:6,5,4,3,2,1:find:"+fa+":1 qisl:6,5,4:find:"+sp+":42"+
+			" qifind:-: qifind:"+sp+": qifind:"+sp+":2 qifind:-:2 qifind:-:40,60 qifind:"+ge+":3 qifind:-:42 qifind:"+h("order")+":1"+
+			" qispp:1,2,3,4,5,6,4,40 qispp: qispp:1 qispp:4,99 qisp:1,2,3,4:aaaaa qisp:1,2,3,4:bbbbb qisp:1,2,3,4:ababab qisp:1,2,3,4:ab qisp:1,2,3,4: qisp:1,2,3,4:abbbbaab qisp::a qisp::ba qisp:4,40,4:aba qisp:4,99:ab qisp:1:ba qisp:1:bba",
+		"taxd "+demo+" qitx qisl:6,5,4,3,2,1,4:sub:2 qifind:"+sp+":2 qisp:1,2,3,4:abab qisl:6,60,4:bel:5,40",
 	)
 	for _, c := range corpus {
 		emit(c)
@@ -1505,6 +1658,130 @@ func (r *c14Ref) expect(f []string) string {
 		}
 		x, ok2 := r.resolve(c14SeqTaxid(f[2]))
 		return c14B(known && ok2 && r.isAnc(c, x))
+	case "itx":
+		n, sum := 0, 0
+		for _, x := range r.sortedIDs() {
+			n++
+			sum = (sum + x%1000003) % 1000003
+		}
+		return fmt.Sprintf("%d/%d", n, sum)
+	case "isl", "ifind":
+		// the source: the given taxa in order (isl) / every node (ifind); then the naive selection
+		var src []int
+		var spec []string
+		if f[0] == "isl" {
+			if len(f) < 3 {
+				return ""
+			}
+			for _, c := range ints(f[1]) {
+				n, ok := r.resolve(c)
+				if !ok {
+					return "unk"
+				}
+				src = append(src, n)
+			}
+			spec = f[2:]
+		} else {
+			if len(f) != 3 {
+				return ""
+			}
+			src = r.sortedIDs()
+			spec = []string{"find", f[1], f[2]}
+		}
+		rank, useRank := "", false
+		var clades []int
+		switch {
+		case spec[0] == "all" && len(spec) == 1:
+		case spec[0] == "sub" && len(spec) == 2:
+			clades = []int{atoi(spec[1])}
+		case spec[0] == "rank" && len(spec) == 2:
+			rank, _ = c14Unhex(spec[1])
+			useRank = true
+		case spec[0] == "bel" && len(spec) == 2:
+			clades = ints(spec[1])
+		case spec[0] == "find" && len(spec) == 3:
+			rank, _ = c14Unhex(spec[1])
+			useRank = rank != ""
+			clades = ints(spec[2])
+		default:
+			return ""
+		}
+		var cs []int
+		for _, c := range clades {
+			n, ok := r.resolve(c)
+			if !ok {
+				return "unk"
+			}
+			cs = append(cs, n)
+		}
+		var l []int
+		for _, x := range src {
+			in := len(cs) == 0
+			for _, c := range cs {
+				in = in || r.isAnc(c, x)
+			}
+			if in && (!useRank || r.t.rank[x] == rank) {
+				l = append(l, x)
+			}
+		}
+		if f[0] == "ifind" {
+			return c14IDs(l)
+		}
+		set := append([]int{}, l...)
+		sort.Ints(set)
+		var u []int
+		for i, x := range set {
+			if i == 0 || x != set[i-1] {
+				u = append(u, x)
+			}
+		}
+		return c14IDs(l) + "/" + c14IDs(u)
+	case "ispp":
+		if len(f) != 2 {
+			return ""
+		}
+		var src []int
+		for _, c := range ints(f[1]) {
+			n, ok := r.resolve(c)
+			if !ok {
+				return "unk"
+			}
+			src = append(src, n)
+		}
+		sort.Ints(src)
+		return c14IDs(src)
+	case "isp":
+		// every taxon of the source goes, in order, to the consumer that asks next; the first call on the emptied
+		// channel finishes both handles (its caller's current becomes nil, the other keeps its last taxon)
+		if len(f) != 3 {
+			return ""
+		}
+		var src []int
+		for _, c := range ints(f[1]) {
+			n, ok := r.resolve(c)
+			if !ok {
+				return "unk"
+			}
+			src = append(src, n)
+		}
+		got := map[byte][]int{}
+		cur := map[byte]string{'a': "nil", 'b': "nil"}
+		k, fin := 0, 0
+		for i := 0; i < len(f[2]); i++ {
+			h := f[2][i]
+			if fin == 1 {
+				continue
+			}
+			if k < len(src) {
+				got[h] = append(got[h], src[k])
+				cur[h] = strconv.Itoa(src[k])
+				k++
+			} else {
+				fin = 1
+				cur[h] = "nil"
+			}
+		}
+		return fmt.Sprintf("a=%s;b=%s;r=%s;f=%d;ca=%s;cb=%s", c14IDs(got['a']), c14IDs(got['b']), c14IDs(src[k:]), fin, cur['a'], cur['b'])
 	case "isub", "ibel":
 		var cs []int
 		for _, c := range ints(f[1]) {
@@ -2142,6 +2419,223 @@ func c14Query(tax *obitax.Taxonomy, ref *c14Ref, f []string, fail func(sig, form
 		seq.SetAttribute("clade", str)
 		obigrep.VerifSetTaxonomyOptions(tax, []string{"clade"}, []int{}, []string{})
 		return c14B(obigrep.CLIRestrictTaxonomyPredicate()(seq))
+	case f[0] == "itx" && len(f) == 1:
+		l := c14Drain(tax.Iterator(), fail, "itx")
+		if set := tax.Iterator().TaxonSet(); set.Len() != len(l) {
+			fail("itx.taxonset", "Taxonomy.Iterator().TaxonSet() holds %d taxa, the slice %d", set.Len(), len(l))
+		}
+		sum := 0
+		for _, x := range l { // taxids go up to 2^63-1: a checksum that does not overflow
+			sum = (sum + x%1000003) % 1000003
+		}
+		return fmt.Sprintf("%d/%d", len(l), sum)
+	case (f[0] == "isl" && len(f) >= 3) || (f[0] == "ifind" && len(f) == 3):
+		// source: a TaxonSlice of the given taxa (isl) or the taxonomy itself (ifind, through obifind)
+		mkSrc := func() (*obitax.ITaxonSet, bool) {
+			if f[0] == "ifind" {
+				return tax.Iterator(), true
+			}
+			sl := make(obitax.TaxonSlice, 0)
+			for _, c := range c14Ints(f[1]) {
+				n, e := tax.Taxon(c)
+				if e != nil {
+					return nil, false
+				}
+				sl = append(sl, n)
+			}
+			return sl.Iterator(), true
+		}
+		spec := f[2:]
+		if f[0] == "ifind" {
+			spec = []string{"find", f[1], f[2]}
+		}
+		cladeSet := func(s string) (*obitax.TaxonSet, bool) {
+			set := make(obitax.TaxonSet)
+			for _, c := range c14Ints(s) {
+				n, e := tax.Taxon(c)
+				if e != nil {
+					return nil, false
+				}
+				set.Inserts(n)
+			}
+			return &set, true
+		}
+		apply := func(it *obitax.ITaxonSet) (*obitax.ITaxonSet, string) {
+			switch {
+			case spec[0] == "all" && len(spec) == 1:
+				return it, ""
+			case spec[0] == "sub" && len(spec) == 2:
+				c, e := tax.Taxon(id(spec[1]))
+				if e != nil {
+					return nil, "unk"
+				}
+				return it.IFilterOnSubcladeOf(c), ""
+			case spec[0] == "rank" && len(spec) == 2:
+				return it.IFilterOnTaxRank(c14Unrank(spec[1])), ""
+			case spec[0] == "bel" && len(spec) == 2:
+				set, ok := cladeSet(spec[1])
+				if !ok {
+					return nil, "unk"
+				}
+				return it.IFilterBelongingSubclades(set), ""
+			case spec[0] == "find" && len(spec) == 3:
+				obifind.VerifSetFindOptions(tax, c14Ints(spec[2]), c14Unrank(spec[1]))
+				restrict, err := obifind.ITaxonRestrictions()
+				if err != nil {
+					return nil, "unk"
+				}
+				return restrict(it), ""
+			}
+			return nil, "bad-op"
+		}
+		drain := func() ([]int, *obitax.ITaxonSet, string) {
+			src, ok := mkSrc()
+			if !ok {
+				return nil, nil, "unk"
+			}
+			it, msg := apply(src)
+			if msg != "" {
+				if msg == "unk" { // nobody will read the source: empty it, its producer goroutine ends
+					src.TaxonSlice()
+				}
+				return nil, nil, msg
+			}
+			sl := it.TaxonSlice()
+			l := make([]int, sl.Len())
+			for i := range l {
+				l[i] = sl.Get(i).Taxid()
+			}
+			return l, it, ""
+		}
+		l, it, msg := drain()
+		if msg != "" {
+			return msg
+		}
+		if !it.Finished() || it.Next() || it.Get() != nil {
+			fail(f[0]+".finished", "a drained iterator is not finished")
+		}
+		if f[0] == "ifind" {
+			seen := map[int]bool{}
+			for _, x := range l {
+				if seen[x] {
+					fail("ifind.twice", "taxon %d is yielded twice", x)
+				}
+				seen[x] = true
+			}
+			sort.Ints(l)
+			return c14IDs(l)
+		}
+		// TaxonSet() of the same pipeline
+		src2, _ := mkSrc()
+		it2, _ := apply(src2)
+		set := it2.TaxonSet()
+		keys := make([]int, 0, set.Len())
+		for k, n := range *set {
+			if n == nil || n.Taxid() != k {
+				fail("isl.setkey", "TaxonSet() files taxon %v under key %d", n, k)
+			}
+			keys = append(keys, k)
+		}
+		sort.Ints(keys)
+		return c14IDs(l) + "/" + c14IDs(keys)
+	case f[0] == "ispp" && len(f) == 2:
+		// the iterator and its Split() drained by two goroutines in parallel: the scheduler picks the interleaving
+		sl := make(obitax.TaxonSlice, 0)
+		for _, c := range c14Ints(f[1]) {
+			n, e := tax.Taxon(c)
+			if e != nil {
+				return "unk"
+			}
+			sl = append(sl, n)
+		}
+		ha := sl.Iterator()
+		hb := ha.Split()
+		var sa, sb *obitax.TaxonSlice
+		done := make(chan bool)
+		go func() { sb = hb.TaxonSlice(); done <- true }()
+		sa = ha.TaxonSlice()
+		<-done
+		// each share is a subsequence of the source, together they are the source
+		pos := map[*obitax.TaxNode][]int{}
+		for i, n := range sl {
+			pos[n] = append(pos[n], i)
+		}
+		var all []int
+		for _, sh := range []*obitax.TaxonSlice{sa, sb} {
+			j := 0
+			for i := 0; i < sh.Len(); i++ {
+				for j < len(sl) && sl[j] != sh.Get(i) {
+					j++
+				}
+				if j == len(sl) {
+					fail("ispp.order", "a consumer does not see its share in source order")
+					break
+				}
+				j++
+				all = append(all, sh.Get(i).Taxid())
+			}
+		}
+		if sa.Len() > 0 && sb.Len() > 0 {
+			stat("ispp:both-served")
+		}
+		if len(all) != len(sl) {
+			fail("ispp.count", "%d taxa sent, %d + %d received", len(sl), sa.Len(), sb.Len())
+		}
+		if !ha.Finished() || !hb.Finished() || ha.Next() || hb.Next() {
+			fail("ispp.end", "a handle is not finished after the two drains")
+		}
+		sort.Ints(all)
+		return c14IDs(all)
+	case f[0] == "isp" && len(f) == 3:
+		sl := make(obitax.TaxonSlice, 0)
+		for _, c := range c14Ints(f[1]) {
+			n, e := tax.Taxon(c)
+			if e != nil {
+				return "unk"
+			}
+			sl = append(sl, n)
+		}
+		a := sl.Iterator()
+		b := a.Split()
+		var ga, gb []int
+		for i := 0; i < len(f[2]); i++ {
+			switch f[2][i] {
+			case 'a':
+				if a.Next() {
+					ga = append(ga, a.Get().Taxid())
+				}
+			case 'b':
+				if b.Next() {
+					gb = append(gb, b.Get().Taxid())
+				}
+			default:
+				return "bad-op"
+			}
+		}
+		cur := func(h *obitax.ITaxonSet) string {
+			if h.Get() == nil {
+				return "nil"
+			}
+			return strconv.Itoa(h.Get().Taxid())
+		}
+		if a.Finished() != b.Finished() {
+			fail("isp.finished", "the iterator says Finished %v, its split %v", a.Finished(), b.Finished())
+		}
+		res := fmt.Sprintf("f=%d;ca=%s;cb=%s", map[bool]int{false: 0, true: 1}[a.Finished()], cur(a), cur(b))
+		// what is left goes to a third handle (this also lets the producer goroutine end)
+		c := a.Split()
+		rest := c.TaxonSlice()
+		gr := make([]int, rest.Len())
+		for i := range gr {
+			gr[i] = rest.Get(i).Taxid()
+		}
+		if !a.Finished() || !b.Finished() || !c.Finished() || a.Next() || b.Next() || c.Next() {
+			fail("isp.end", "after the channel is emptied a handle is not finished or Next answers true")
+		}
+		if len(ga)+len(gb)+len(gr) != len(sl) {
+			fail("isp.count", "%d taxa sent, %d + %d + %d received", len(sl), len(ga), len(gb), len(gr))
+		}
+		return fmt.Sprintf("a=%s;b=%s;r=%s;", c14IDs(ga), c14IDs(gb), c14IDs(gr)) + res
 	case f[0] == "isub" && len(f) == 2:
 		c, e := tax.Taxon(id(f[1]))
 		if e != nil {
@@ -2238,6 +2732,14 @@ func c14Query(tax *obitax.Taxonomy, ref *c14Ref, f []string, fail func(sig, form
 		l, rans, _ := tax.LCA(mk(), 1.0)
 		if rans != 1.0 {
 			fail("wl.rans", "Taxonomy.LCA(…, 1.0) reports an agreement of %v", rans)
+		}
+		if f[0] == "wl" && strings.Contains(f[1], ",") { // Go's map iteration order must not matter (several keys may designate one taxon)
+			for i := 0; i < 6; i++ {
+				if l2, _, _ := tax.LCA(mk(), 1.0); (l2 == nil) != (l == nil) || (l != nil && l2.Taxid() != l.Taxid()) {
+					fail("wl.order", "Taxonomy.LCA(…, 1.0) answers %v then %v on the same merged_taxid map", l, l2)
+					break
+				}
+			}
 		}
 		if l == nil {
 			return "nil"
